@@ -570,9 +570,9 @@ func mathText(n *pkgmodel.Node) string {
 }
 
 func runC08(r *rep.Run) {
-	depth := 4
+	depth := 5
 	if r.Tier == "thorough" {
-		depth = 6
+		depth = 7
 	}
 	r.Rule = "BFS over histories of append (12 kinds), section-creating (5) and remove (by handle: live/stale/foreign/nil; by paragraph index and by element index, every index in -1..n+1) operations on a real Document, in lock-step with a plain list model; state key = sequence of element kinds (+ whether a stale handle exists); non-trivial = a step that changed the list; each distinct state is saved and its w:body child order compared with the model"
 	r.Bounds["depth"] = depth
